@@ -1,8 +1,325 @@
-//! C32 — not built yet.
+//! C32 — simple-cursor JSON index navigates valid documents exactly (DESIGN §4 C32).
+//!
+//! Oracle: by construction. The G-json renderer records, while it writes the text, the
+//! position of every `{ } [ ] , :` it emits outside strings (`structurals`) and the byte
+//! span of every value (`spans`: start, exclusive end, kind). Expected answers are read
+//! off that table; nothing is re-derived from the text by scanning.
 use crate::engine::*;
+use crate::gen::json::{self, GenOpts, KeyPalette, Rendered, Role, StrPalette, J};
+use serde_json::{json, Value};
+use succinctly::json::SimpleJsonIndex;
 
-pub const RULE: &str = "not built";
+pub const RULE: &str = "G-json documents (every string palette incl. structural bytes, quotes and backslashes inside strings and keys; random / none / spaced / pretty whitespace; every escape form), plain (1..300 nodes), tiled (a generated sub-document repeated 10..3000 times as array elements or object members, so IB spans many words and BP crosses its 512-bit and 32768-bit blocks) and deep (wrapped in 1..2000 nested containers, 6000 thorough). Expected structural list and spans come from the renderer's span table. Non-trivial: nesting >= 2 and at least one string (key or value) whose raw text contains one of {}[],: ; distinct by hash(text).";
+
+fn info(r: &Rendered) -> Value {
+    json!({"len": r.text.len(), "n_structurals": r.structurals.len(), "text": show_bytes(&r.text), "text_hex": hex(&r.text[..r.text.len().min(4096)])})
+}
+
+pub struct Case {
+    pub kind: &'static str,
+    pub j: J,
+    pub r: Rendered,
+}
+
+fn opts(u: &mut Src, max_nodes: usize) -> GenOpts {
+    GenOpts {
+        max_depth: u.range(1, 9),
+        max_nodes,
+        dup_keys: true,
+        strings: *u.pick(&[StrPalette::Full, StrPalette::Full, StrPalette::Ascii, StrPalette::AsciiPlain]),
+        keys: *u.pick(&[KeyPalette::AsStrings, KeyPalette::AsStrings, KeyPalette::Hostile, KeyPalette::Ident]),
+        numbers: 2,
+        max_str_len: *u.pick(&[6, 24, 24, 80]),
+    }
+}
+
+pub fn gen_case(u: &mut Src, deep_max: usize, tile_max: usize) -> Case {
+    let (kind, j) = match u.weighted(&[8, 3, 3]) {
+        0 => {
+            let n = if u.ratio(1, 4) { u.range(40, 300) } else { u.range(1, 40) };
+            let o = opts(u, n);
+            ("plain", json::gen_value(u, &o))
+        }
+        1 => {
+            let nn = u.range(1, 30);
+            let mut o = opts(u, nn);
+            o.max_str_len = o.max_str_len.min(12);
+            let sub = json::gen_value(u, &o);
+            let n = match u.below(8) {
+                0 | 1 | 2 => u.range(10, 40),
+                3 | 4 | 5 => u.range(40, 300),
+                _ => u.range(300, tile_max),
+            };
+            // keep the document bounded (several library calls are O(text) each: structural_pos
+            // scans the IB words from 0): total node budget 6000, sometimes 45000 so that BP
+            // crosses its 32768-bit blocks
+            let budget = if u.ratio(1, 4) { 15 * tile_max } else { 2 * tile_max };
+            let n = n.min(budget / sub.node_count().max(1)).max(2);
+            let tiled = if u.bool() {
+                J::Arr((0..n).map(|_| sub.clone()).collect())
+            } else {
+                J::Obj((0..n).map(|i| (format!("k{}", i % 97), sub.clone())).collect())
+            };
+            let d = if u.ratio(1, 3) { u.range(1, 6) } else { 0 };
+            ("tiled", json::wrap_deep(u, tiled, d))
+        }
+        _ => {
+            let nn = u.range(1, 12);
+            let o = opts(u, nn);
+            let inner = json::gen_value(u, &o);
+            let d = match u.below(4) {
+                0 => u.range(1, 70),
+                1 => u.range(120, 140),
+                2 => u.range(250, 600),
+                _ => u.range(600, deep_max),
+            };
+            ("deep", json::wrap_deep(u, inner, d))
+        }
+    };
+    let ro = json::render_opts(u);
+    let r = json::render(&j, u, ro);
+    Case { kind, j, r }
+}
+
+fn raw_has_structural(b: &[u8]) -> bool {
+    b.iter().any(|c| matches!(c, b'{' | b'}' | b'[' | b']' | b',' | b':'))
+}
+
+fn classify(c: &Case, st: &mut Stats) {
+    let r = &c.r;
+    // container nesting depth: a container span at depth d is nested d+1 deep
+    let nest = r.spans.iter().filter(|s| s.kind == "array" || s.kind == "object").map(|s| s.depth + 1).max().unwrap_or(0);
+    let str_struct = r.spans.iter().any(|s| s.kind == "string" && raw_has_structural(&r.text[s.start..s.end]));
+    let nt = nest >= 2 && str_struct;
+    st.class(&format!("kind-{}", c.kind));
+    st.class_if(nt, "nontrivial");
+    if nt {
+        st.nontrivial(hash_bytes(&r.text));
+    }
+    st.class_if(str_struct, "string-with-structural-bytes");
+    st.class_if(r.spans.iter().any(|s| s.role == Role::Key && raw_has_structural(&r.text[s.start..s.end])), "key-with-structural-bytes");
+    st.class_if(r.text.windows(3).any(|w| w[0] == b'\\' && w[1] == b'"' && matches!(w[2], b'{' | b'}' | b'[' | b']' | b',' | b':')), "escaped-quote-then-structural");
+    st.class_if(r.text.windows(2).any(|w| w == b"\\\\"), "backslash-pair-in-string");
+    let ns = r.structurals.len();
+    st.class_if(ns == 0, "no-structurals(root-scalar)");
+    st.class_if(r.text.len() > 64, "ib>1-word");
+    st.class_if(ns * 2 > 512, "bp>512-bits");
+    st.class_if(ns * 2 > 32768, "bp>32768-bits");
+    st.class_if(ns * 2 > 262144, "bp>262144-bits");
+    st.class_if(nest >= 129, "nesting>=129");
+    st.class_if(nest >= 1000, "nesting>=1000");
+    st.class_if(r.spans.iter().any(|s| (s.kind == "array" || s.kind == "object") && s.end - s.start == 2), "empty-container");
+    st.class_if(r.text.len() % 64 == 0, "len%64==0");
+    st.class_if(r.n_ws_gaps > 0, "has-whitespace");
+    st.size(r.text.len());
+    let cls = if nt { "nontrivial" } else { c.kind };
+    st.sample(cls, || json!({"kind": c.kind, "len": r.text.len(), "structurals": ns, "nesting": nest, "text": show_bytes(&r.text[..r.text.len().min(200)])}));
+}
+
+fn sample_indices(u: &mut Src, n: usize, dense_limit: usize, extra: usize) -> Vec<usize> {
+    if n <= dense_limit {
+        return (0..n).collect();
+    }
+    let mut v: Vec<usize> = vec![0, 1, 2, n - 1, n - 2, n / 2];
+    // neighbourhoods of 64-multiples (IB words) — sampled
+    for _ in 0..extra {
+        v.push(u.below(n));
+    }
+    let s = u.below(n);
+    v.extend(s..(s + 200).min(n));
+    v
+}
+
+pub fn check_case(c: &Case, u: &mut Src, st: &mut Stats) -> Result<(), Fail> {
+    let r = &c.r;
+    let text = &r.text[..];
+    let s = &r.structurals;
+    let n = s.len();
+    let idx = SimpleJsonIndex::build(text);
+
+    // ---- the list
+    check_eq!("C32/structural_count", n, idx.structural_count(), {"case": info(r)});
+    // the iterator costs O(words) per item: list everything for n <= 6000, else a 3000 prefix
+    let lim = if n <= 6000 { n + 2 } else { 3000 };
+    let listed: Vec<usize> = idx.structural_positions(text).take(lim).collect();
+    if listed[..] != s[..lim.min(n)] {
+        let i = listed.iter().zip(s.iter()).position(|(a, b)| a != b).unwrap_or(listed.len().min(n));
+        fail!("C32/structural_positions", {"first_difference_at_ordinal": i, "expected": s.get(i), "actual": listed.get(i), "expected_count": n, "actual_count": listed.len(), "case": info(r)});
+    }
+    st.evals(2);
+    let ks = sample_indices(u, n, 3000, 600);
+    for &k in &ks {
+        check_eq!("C32/structural_pos", Some(s[k]), idx.structural_pos(k), {"k": k, "case": info(r)});
+    }
+    for k in [n, n + 1, n + 63, n + 64, 1usize << 32, (1usize << 32) + 1, usize::MAX - 1, usize::MAX] {
+        check_eq!("C32/structural_pos/past-end", None::<usize>, idx.structural_pos(k), {"k": k, "case": info(r)});
+    }
+    st.evals(ks.len() as u64 + 8);
+
+    // ---- back to the ordinal
+    for &k in &ks {
+        check_eq!("C32/structural_index/at-structural", Some(k), idx.structural_index(s[k]), {"pos": s[k], "case": info(r)});
+    }
+    let len = text.len();
+    let ps: Vec<usize> = if len <= 6000 {
+        (0..len + 3).collect()
+    } else {
+        let mut v: Vec<usize> = (0..400).map(|_| u.below(len)).collect();
+        v.extend([len - 1, len, len + 1, len + 63, len + 64]);
+        let a = u.below(len);
+        v.extend(a..(a + 300).min(len));
+        v
+    };
+    for &p in &ps {
+        let e = s.binary_search(&p).ok();
+        check_eq!(if e.is_some() { "C32/structural_index/at-structural" } else { "C32/structural_index/not-structural" }, e, idx.structural_index(p), {"pos": p, "byte": text.get(p), "case": info(r)});
+    }
+    for p in [usize::MAX, usize::MAX - 63, 1usize << 32, len.next_multiple_of(64), len.next_multiple_of(64) + 1] {
+        if p >= len {
+            check_eq!("C32/structural_index/past-end", None::<usize>, idx.structural_index(p), {"pos": p, "case": info(r)});
+        }
+    }
+    st.evals(ks.len() as u64 + ps.len() as u64 + 5);
+
+    // ---- containers and values
+    let containers: Vec<usize> = (0..r.spans.len()).filter(|&i| r.spans[i].kind == "array" || r.spans[i].kind == "object").collect();
+    let csel = sample_indices(u, containers.len(), 1500, 300);
+    for &ci in &csel {
+        let sp = &r.spans[containers[ci]];
+        check_eq!("C32/find_close", Some(sp.end - 1), idx.find_close(text, sp.start), {"open": sp.start, "depth": sp.depth, "case": info(r)});
+        check_eq!("C32/skip_value/container", Some(sp.end), idx.skip_value(text, sp.start), {"start": sp.start, "case": info(r)});
+    }
+    st.evals(csel.len() as u64 * 2);
+    let values: Vec<usize> = (0..r.spans.len()).filter(|&i| r.spans[i].role == Role::Value && !(r.spans[i].kind == "array" || r.spans[i].kind == "object")).collect();
+    let vsel = sample_indices(u, values.len(), 3000, 600);
+    for &vi in &vsel {
+        let sp = &r.spans[values[vi]];
+        check_eq!(format!("C32/skip_value/{}", sp.kind), Some(sp.end), idx.skip_value(text, sp.start), {"start": sp.start, "token": show_bytes(&text[sp.start..sp.end]), "case": info(r)});
+    }
+    st.evals(vsel.len() as u64);
+
+    // find_close is documented to return None when `pos` is not at an open bracket/brace
+    for _ in 0..20.min(len) {
+        let p = u.below(len);
+        if text[p] != b'{' && text[p] != b'[' {
+            check_eq!("C32/find_close/not-an-open", None::<usize>, idx.find_close(text, p), {"pos": p, "byte": text[p], "case": info(r)});
+        } else {
+            // a bracket byte (structural or inside a string): only exercised
+            let _ = idx.find_close(text, p);
+        }
+    }
+    check_eq!("C32/find_close/past-end", None::<usize>, idx.find_close(text, len), {"case": info(r)});
+    check_eq!("C32/skip_value/past-end", None::<usize>, idx.skip_value(text, len), {"case": info(r)});
+
+    // ---- children(): stays inside the container, yields structural non-delimiter bytes
+    // in increasing order, and includes the brackets of every immediate child container
+    let csel2 = sample_indices(u, containers.len(), 40, 30);
+    for &ci in &csel2 {
+        let si = containers[ci];
+        let sp = &r.spans[si];
+        let (open, close) = (sp.start, sp.end - 1);
+        let it = match idx.children(text, open) {
+            Some(it) => it,
+            None => fail!("C32/children/none-for-container", {"open": open, "case": info(r)}),
+        };
+        // bound the walk: at most the number of structurals inside
+        let lo = s.partition_point(|&p| p <= open);
+        let hi = s.partition_point(|&p| p < close);
+        let got: Vec<usize> = it.take((hi - lo + 2).min(600)).collect();
+        let truncated = got.len() == 600;
+        let mut prev = open;
+        for &p in &got {
+            let ok = p > prev && p < close && s.binary_search(&p).is_ok() && text[p] != b',' && text[p] != b':';
+            if !ok {
+                fail!("C32/children/outside-or-not-structural", {"open": open, "close": close, "yielded": p, "previous": prev, "case": info(r)});
+            }
+            prev = p;
+        }
+        // immediate child containers: spans whose parent is this span (bounded scan forward)
+        let mut k = si + 1;
+        let mut seen = 0;
+        while k < r.spans.len() && r.spans[k].start < close && seen < 400 {
+            let ch = &r.spans[k];
+            if ch.parent == Some(si) && (ch.kind == "array" || ch.kind == "object") {
+                if truncated && got.last().map_or(true, |&l| ch.end - 1 > l) {
+                    break;
+                }
+                if got.binary_search(&ch.start).is_err() || got.binary_search(&(ch.end - 1)).is_err() {
+                    fail!("C32/children/misses-child-container", {"open": open, "child_open": ch.start, "child_close": ch.end - 1, "case": info(r)});
+                }
+            }
+            k += 1;
+            seen += 1;
+        }
+        st.evals(1);
+    }
+    st.digest(hash_bytes(text) ^ n as u64);
+    Ok(())
+}
+
+/// Structured replay: `{"input": {"entropy_hex": .., "deep_max": .., "tile_max": ..}}` — the
+/// document is regenerated from the entropy (the span table cannot be rebuilt from text alone
+/// without a second parser, which would then be the oracle).
+fn replay_input(v: &Value) -> Option<Fail> {
+    let ent = unhex(v["input"]["entropy_hex"].as_str().unwrap_or(""));
+    let deep_max = v["input"]["deep_max"].as_u64().unwrap_or(2000) as usize;
+    let tile_max = v["input"]["tile_max"].as_u64().unwrap_or(3000) as usize;
+    let mut st = Stats::default();
+    let r = catch(|| {
+        let mut u = Src::new(&ent);
+        let c = gen_case(&mut u, deep_max, tile_max);
+        let res = check_case(&c, &mut u, &mut st);
+        let Case { j, .. } = c;
+        json::drop_deep(j);
+        res
+    });
+    match r {
+        Ok(Ok(())) => None,
+        Ok(Err(f)) => Some(f),
+        Err((loc, msg)) => Some(Fail::new(format!("panic@{}", panic_sig(&loc)), json!({"panic": msg, "location": loc}))),
+    }
+}
 
 pub fn run(cx: &mut Ctx) {
-    cx.infra("check not built");
+    cx.assume("expected structural positions and value spans are recorded by the harness renderer while it writes the text (G-json span table, self-tested against O-jsonval); SimpleJsonIndex is only given valid documents");
+    cx.assume("children(): only the weak reading is asserted (inside the container, structural, not ',' or ':', increasing, includes immediate child containers' brackets) — the statement does not mention it and the in-repo tests pin that delimiters are skipped");
+    for (name, v) in cx.replays.clone() {
+        if v["kind"] == "input" {
+            let r = replay_input(&v);
+            cx.replay_outcome(&name, r);
+        }
+    }
+    let (deep_max, tile_max) = if cx.tier == Tier::Quick { (2000, 3000) } else { (6000, 12000) };
+    cx.check(
+        "navigate-vs-span-table",
+        RULE,
+        Budget { quick: 20_000, thorough: 600_000, max_len: 5000 },
+        |u, st| {
+            let c = gen_case(u, deep_max, tile_max);
+            classify(&c, st);
+            st.describe(|| json!({"kind": c.kind, "len": c.r.text.len(), "text": show_bytes(&c.r.text), "text_hex": hex(&c.r.text[..c.r.text.len().min(16384)])}));
+            let res = check_case(&c, u, st);
+            let Case { j, .. } = c;
+            json::drop_deep(j);
+            res
+        },
+    );
+    for cl in [
+        "nontrivial",
+        "kind-plain",
+        "kind-tiled",
+        "kind-deep",
+        "string-with-structural-bytes",
+        "key-with-structural-bytes",
+        "escaped-quote-then-structural",
+        "no-structurals(root-scalar)",
+        "bp>512-bits",
+        "bp>32768-bits",
+        "nesting>=129",
+        "nesting>=1000",
+        "empty-container",
+        "has-whitespace",
+    ] {
+        cx.require_class("navigate-vs-span-table", cl, 20);
+    }
 }
